@@ -223,7 +223,22 @@ func (in *Interp) branch(c *Term) bool {
 	if c.IsFalse() {
 		return false
 	}
-	return in.choose([]*Term{c, Not(c)}) == 0
+	r := in.choose([]*Term{c, Not(c)}) == 0
+	if c.Op == "var" {
+		// remember decided boolean variables of this path so that models can emit constants instead of ite terms
+		if in.misc["knownBool"] == nil {
+			in.misc["knownBool"] = map[string]bool{}
+		}
+		in.misc["knownBool"].(map[string]bool)[c.Name] = r
+	}
+	return r
+}
+
+// knownBool reports the value of a boolean variable already decided on this path.
+func (in *Interp) knownBool(name string) (val, ok bool) {
+	m, _ := in.misc["knownBool"].(map[string]bool)
+	val, ok = m[name]
+	return
 }
 
 // concretize forks over the values lo..hi of an integer term; hiOut: alternative "value > hi" allowed
